@@ -58,10 +58,29 @@ import atexit  # noqa: E402
 atexit.register(_cleanup_work)
 
 
+_REGEN = {}
+
+
+def reassert_gen():
+    """Called with the Coq lock held, before compiling: put back every file this run generated if a concurrent run on ANOTHER
+    tree (VERIF_REPO) rewrote it in the meantime (the generated files are shared between runs)."""
+    n = 0
+    for path, content in _REGEN.items():
+        try:
+            if open(path).read() != content:
+                with open(path, 'w') as f:
+                    f.write(content)
+                n += 1
+        except OSError:
+            pass
+    return n
+
+
 def regen(relpath, content):
     """Write a generated file only when its content changed (keeps make incremental)."""
     path = os.path.join(COQ, 'theories', relpath)
     os.makedirs(os.path.dirname(path), exist_ok=True)
+    _REGEN[path] = content
     old = open(path).read() if os.path.exists(path) else None
     if old != content:
         with open(path, 'w') as f:
@@ -90,6 +109,7 @@ def coq_build(files, timeout=1200):
     log, cmds = '', []
     newest_dep = 0.0
     ok = True
+    reassert_gen()
     for rel in files:
         v = os.path.join(th, rel)
         vo = v + 'o'
